@@ -203,19 +203,93 @@ theorem read_minimal (ls : List TLine) (toks : List Tok) (rem : Option (List TLi
 example : readFile [[.chr 49, .bg, .sp], [.chr 50, .sp], [.chr 51, .eg, .sp], [.chr 52, .sp]] 0 []
     = .ok [.chr 49, .bg, .sp, .chr 50, .sp, .chr 51, .eg, .sp] (some [[.chr 52, .sp]]) := by decide
 
-/-- **`\read` defines the target as a parameterless macro** holding exactly the tokens read:
-a later use delivers `[`, those tokens, `]`; the stream holds what `readFile` left. -/
-theorem read_defines_macro (rfs : List (Nat × List TLine)) (st : RSt) (n : Nat) (x : Nat)
-    (ls : List TLine) (toks : List Tok) (rem : Option (List TLine))
-    (hrun : st.status = .running) (hopen : takeFile st.streams n = some ls)
-    (hread : readFile ls 0 [] = .ok toks rem) :
-    let st' := opStep false rfs st (.read n x)
-    st'.status = .running ∧ st'.streams = st.streams.set n rem ∧
+/-- **`\read` defines the target as a parameterless macro** holding exactly the tokens read
+(from the lines as the lexer holds them under the current `\endlinechar`): a later use
+delivers `[`, those tokens, `]`; the stream keeps the untouched lines (`afterRead`). -/
+theorem read_defines_macro (rfs : List (Nat × List RawLine)) (st : RSt) (g : Bool) (n : Nat) (x : Nat)
+    (slots : List Slot) (toks : List Tok) (rem : Option (List TLine))
+    (hrun : st.status = .running) (hopen : takeFile st.streams n = some slots)
+    (hread : readFile (slots.map (mat true st.elc)) 0 [] = .ok toks rem) :
+    let st' := opStep false rfs st (.read g n x)
+    st'.status = .running ∧
+      st'.streams = st.streams.set n (rem.map (fun r => afterRead st.elc slots r.length)) ∧
       (opStep false rfs st' (.use x)).out = st.out ++ [chrL] ++ toks ++ [chrR] := by
-  obtain ⟨streams, term, macros, out, status⟩ := st
-  simp only at hrun hopen
+  obtain ⟨streams, term, macros, saved, elc, out, status⟩ := st
+  simp only at hrun hopen hread
   subst hrun
-  simp [opStep, hopen, hread, lookup]
+  cases g <;> simp [opStep, hopen, hread, lookup, defMacro]
+
+/-- **Scope of the definition.** Without `\global` the macro defined by `\read` inside a group
+is forgotten at the end of the group (the meaning from before the group returns); with
+`\global` it survives the end of every enclosing group. -/
+theorem read_local_in_group (tex : Bool) (rfs : List (Nat × List RawLine)) (st : RSt) (n : Int) (x : Nat)
+    (hrun : st.status = .running)
+    (hok : (opStep tex rfs (opStep tex rfs st .bgroup) (.read false n x)).status = .running) :
+    (opStep tex rfs (opStep tex rfs (opStep tex rfs st .bgroup) (.read false n x)) .egroup).macros
+      = st.macros := by
+  obtain ⟨streams, term, macros, saved, elc, out, status⟩ := st
+  simp only at hrun
+  subst hrun
+  simp only [opStep] at hok ⊢
+  cases ht : takeFile streams n with
+  | none =>
+    simp only [ht] at hok ⊢
+    cases hr : readTerm (term.map (attach elc)) 0 [] with
+    | exhausted => simp [hr] at hok
+    | ok toks term' => simp [defMacro]
+  | some slots =>
+    simp only [ht] at hok ⊢
+    cases hr : (if tex then texReadFile (slots.map (mat true elc)) 0 [] else readFile (slots.map (mat true elc)) 0 []) with
+    | unmatched => simp [hr] at hok
+    | ok toks rem => simp [defMacro]
+
+theorem read_global_survives_group (tex : Bool) (rfs : List (Nat × List RawLine)) (st : RSt) (n : Int) (x : Nat)
+    (hrun : st.status = .running)
+    (hok : (opStep tex rfs (opStep tex rfs st .bgroup) (.read true n x)).status = .running) :
+    lookup (opStep tex rfs (opStep tex rfs (opStep tex rfs st .bgroup) (.read true n x)) .egroup).macros x
+      = lookup (opStep tex rfs (opStep tex rfs st .bgroup) (.read true n x)).macros x ∧
+    (lookup (opStep tex rfs (opStep tex rfs st .bgroup) (.read true n x)).macros x).isSome := by
+  obtain ⟨streams, term, macros, saved, elc, out, status⟩ := st
+  simp only at hrun
+  subst hrun
+  simp only [opStep] at hok ⊢
+  cases ht : takeFile streams n with
+  | none =>
+    simp only [ht] at hok ⊢
+    cases hr : readTerm (term.map (attach elc)) 0 [] with
+    | exhausted => simp [hr] at hok
+    | ok toks term' => simp [defMacro, lookup]
+  | some slots =>
+    simp only [ht] at hok ⊢
+    cases hr : (if tex then texReadFile (slots.map (mat true elc)) 0 [] else readFile (slots.map (mat true elc)) 0 []) with
+    | unmatched => simp [hr] at hok
+    | ok toks rem => simp [defMacro, lookup]
+
+/-- **`\endlinechar` and read lines.** Every line that a `\read` consumes ends with the token of
+the `\endlinechar` in force *at that `\read`* (nothing if it is negative or the line ends in a
+comment), whatever was in force when earlier lines of the stream were read: the lines the
+reader works on are `attach e raw`. (Describes `Lexer::next` as repaired by
+fixes/C19-d.patch; the unrepaired lexer is `mat false`, which differs as soon as
+`freshSlots` fails — witness below.) -/
+theorem endlinechar_on_read_lines (e : Elc) (slots : List Slot) :
+    slots.map (mat true e) = slots.map (fun s => attach e s.raw) := by
+  apply List.map_congr_left
+  intro s _
+  obtain ⟨loaded, raw⟩ := s
+  cases loaded <;> simp [mat]
+
+/-- `1`/`2`/`3`: `\read`, `\endlinechar=`*`, `\read`: the second line is `2*` for the model and
+for TeX; the unrepaired lexer (which had started line 2 during the first `\read`) sees `2␣`:
+finding C19-d. -/
+example :
+    let rfs : List (Nat × List RawLine) := [(0, [⟨[.chr 49], some [.sp]⟩, ⟨[.chr 50], some [.sp]⟩, ⟨[.chr 51], some [.sp]⟩])]
+    let ops : List Op := [.openin 0 0, .read false 0 100, .setElc (.other 42), .read false 0 101, .use 101]
+    (runOps false rfs [] ops).out = [chrL, .chr 50, .chr 42, chrR] ∧
+    (runOps true rfs [] ops).out = [chrL, .chr 50, .chr 42, chrR] ∧
+    (∃ slots, takeFile (runOps false rfs [] (ops.take 3)).streams 0 = some slots ∧
+      freshSlots (.other 42) slots = false ∧ (slots.map (mat false (.other 42))).head? = some [.chr 50, .sp]) := by
+  refine ⟨by decide, by decide, ?_⟩
+  exact ⟨_, rfl, by decide, by decide⟩
 
 /-- **`\ifeof`, partial** (known finding C19-b). Whenever the model's `\read` leaves the
 stream open (a further real line remains), TeX's `\read` (§485–§486) returns the same tokens
@@ -226,22 +300,24 @@ theorem ifeof_after_appended_line_partial (ls : List TLine) (toks : List Tok) (r
   readFile_tex_open ls 0 [] toks rem h
 
 /-- **Every interleaving, partial** (known finding C19-b). For every script of `\openin`,
-`\read`, `\ifeof`, `\closein` and macro uses on the 16 streams, every file system and
-terminal: if along the model's run no `\read` leaves its stream without a further real line
-(or fails) and no empty file is opened (`safeRun`, decidable), the model and TeX
+`\read`, `\global\read`, `\ifeof`, `\closein`, `\endlinechar` changes, groups and macro uses on
+the 16 streams, every file system and terminal: if along the model's run no `\read` leaves its
+stream without a further real line (or fails) and no empty file is opened (`safeRun`,
+decidable), the model and TeX
 (§485–§486) end in the same state — same output (so every `\ifeof` answered alike), same
 streams, same macros, same status. -/
-theorem interleavings_agree_with_tex_partial (rfs : List (Nat × List TLine)) (term : List TLine)
+theorem interleavings_agree_with_tex_partial (rfs : List (Nat × List RawLine)) (term : List RawLine)
     (ops : List Op) (h : safeRun rfs (initR term) ops = true) :
     runOps false rfs term ops = runOps true rfs term ops :=
   foldl_agree rfs ops (initR term) (initR_noEmpty term) h
 
 /-- Non-vacuity: two streams on a three-line file, interleaved reads, an `\ifeof`, a close. -/
 example :
-    let f : List TLine := [[.chr 49, .sp], [.chr 50, .bg, .sp], [.chr 51, .eg, .sp], [.chr 52, .sp]]
+    let f : List RawLine := [⟨[.chr 49], some [.sp]⟩, ⟨[.chr 50, .bg], some [.sp]⟩, ⟨[.chr 51, .eg], some [.sp]⟩,
+      ⟨[.chr 52], some [.sp]⟩, ⟨[.chr 53], some [.sp]⟩]
     safeRun [(0, f)] (initR [])
-      [.openin 3 0, .openin 15 0, .read 3 100, .ifeof 3, .read 15 101, .read 15 100, .use 100,
-       .closein 3, .ifeof 3, .ifeof 15] = true := by
+      [.openin 3 0, .setElc (.other 42), .openin 15 0, .read false 3 100, .ifeof 3, .bgroup, .read true 15 101,
+       .read false 15 100, .egroup, .use 100, .closein 3, .ifeof 3, .ifeof 15] = true := by
   decide +kernel
 
 /-- The empty file: both deliver `\par` and close the stream. -/
@@ -261,9 +337,9 @@ theorem ifeof_after_appended_line_full_statement_false : ¬ ifeof_after_appended
   decide
 
 example :
-    (runOps false [(0, [[.chr 65, .sp]])] [] [.openin 0 0, .read 0 100, .ifeof 0]).out = [chrT] ∧
-    (runOps true [(0, [[.chr 65, .sp]])] [] [.openin 0 0, .read 0 100, .ifeof 0]).out = [chrF] ∧
-    (runOps true [(0, [[.chr 65, .sp]])] [] [.openin 0 0, .read 0 100, .read 0 101, .use 101, .ifeof 0]).out
+    (runOps false [(0, [⟨[.chr 65], some [.sp]⟩])] [] [.openin 0 0, .read false 0 100, .ifeof 0]).out = [chrT] ∧
+    (runOps true [(0, [⟨[.chr 65], some [.sp]⟩])] [] [.openin 0 0, .read false 0 100, .ifeof 0]).out = [chrF] ∧
+    (runOps true [(0, [⟨[.chr 65], some [.sp]⟩])] [] [.openin 0 0, .read false 0 100, .read false 0 101, .use 101, .ifeof 0]).out
       = [chrL, .par, chrR, chrT] := by decide
 
 end C19
